@@ -810,4 +810,667 @@ theorem retcode_zero (ls : List Bytes) (h : retcode ls = 0) : ∃ l ∈ ls, ∃ 
       subst h
       exact ⟨l, by simp, verdict_zero l hv⟩
 
+/-! ### `_parse_response` -/
+
+theorem go_zero (buf : Bytes) (len i p : Nat) (acc : List Bytes) : parseResponse.go buf len 0 i p acc = acc := by
+  rw [parseResponse.go]
+
+theorem go_succ (buf : Bytes) (len fuel i p : Nat) (acc : List Bytes) :
+    parseResponse.go buf len (fuel + 1) i p acc =
+      if i < len - 2 then
+        if buf[i]? == some 13 && buf[i+1]? == some 10 then
+          parseResponse.go buf len fuel (i + 1) (i + 2) (acc ++ [(buf.drop p).take (i + 2 - p)])
+        else parseResponse.go buf len fuel (i + 1) p acc
+      else acc := by
+  rw [parseResponse.go]
+
+/-- the scan at index `i`, with the fuel the loop has left there -/
+def scanAt (buf : Bytes) (i p : Nat) (acc : List Bytes) : List Bytes :=
+  parseResponse.go buf buf.length (buf.length + 1 - i) i p acc
+
+theorem parseResponse_eq (buf : Bytes) : parseResponse buf = scanAt buf 0 0 [] := rfl
+
+theorem scanAt_stop (buf : Bytes) (i p : Nat) (acc : List Bytes) (h : buf.length - 2 ≤ i) : scanAt buf i p acc = acc := by
+  unfold scanAt
+  cases hf : buf.length + 1 - i with
+  | zero => rw [go_zero]
+  | succ f => rw [go_succ, if_neg (by omega)]
+
+theorem scanAt_step (buf : Bytes) (i p : Nat) (acc : List Bytes) (h : i < buf.length - 2) :
+    scanAt buf i p acc =
+      if buf[i]? == some 13 && buf[i+1]? == some 10 then scanAt buf (i + 1) (i + 2) (acc ++ [(buf.drop p).take (i + 2 - p)])
+      else scanAt buf (i + 1) p acc := by
+  unfold scanAt
+  have : buf.length + 1 - i = (buf.length + 1 - (i + 1)) + 1 := by omega
+  rw [this, go_succ, if_pos h]
+
+def hasCRLF : Bytes → Bool
+  | a :: b :: r => (a == 13 && b == 10) || hasCRLF (b :: r)
+  | _ => false
+
+theorem hasCRLF_index (b : Bytes) (h : hasCRLF b = false) (k : Nat) : ¬ (b[k]? = some 13 ∧ b[k+1]? = some 10) := by
+  induction b generalizing k with
+  | nil => simp
+  | cons a r ih =>
+    cases r with
+    | nil => cases k <;> simp
+    | cons c r =>
+      simp only [hasCRLF, Bool.or_eq_false_iff, Bool.and_eq_false_iff] at h
+      cases k with
+      | zero =>
+        simp only [List.getElem?_cons_zero, Option.some.injEq, Nat.zero_add, List.getElem?_cons_succ]
+        rintro ⟨rfl, rfl⟩
+        simp at h
+      | succ k =>
+        simp only [List.getElem?_cons_succ]
+        exact ih h.2 k
+
+theorem scanAt_skip (buf : Bytes) (d : Nat) : ∀ (i j p : Nat) (acc : List Bytes), j = i + d → j ≤ buf.length - 2 →
+    (∀ k, i ≤ k → k < j → ¬ (buf[k]? = some 13 ∧ buf[k+1]? = some 10)) → scanAt buf i p acc = scanAt buf j p acc := by
+  induction d with
+  | zero => intro i j p acc hj _ _; simp at hj; rw [hj]
+  | succ d ih =>
+    intro i j p acc hj hle hc
+    rw [scanAt_step buf i p acc (by omega)]
+    have := hc i (Nat.le_refl _) (by omega)
+    have hb : (buf[i]? == some 13 && buf[i+1]? == some 10) = false := by
+      rw [← Bool.not_eq_true]; simpa using this
+    rw [hb]
+    simp only [Bool.false_eq_true, ↓reduceIte]
+    exact ih (i + 1) j p acc (by omega) hle (fun k h1 h2 => hc k (by omega) h2)
+
+theorem idx_mid (pre m suf : Bytes) (k : Nat) (hk : k < m.length) : (pre ++ (m ++ suf))[pre.length + k]? = m[k]? := by
+  rw [List.getElem?_append_right (by omega)]
+  simp [List.getElem?_append_left hk]
+
+theorem scanAt_line (buf pre x post : Bytes) (acc : List Bytes) (hbuf : buf = pre ++ (x ++ [13, 10] ++ post)) (hpost : post ≠ [])
+    (hx : hasCRLF (x ++ [13]) = false) :
+    scanAt buf pre.length pre.length acc = scanAt buf (pre.length + x.length + 2) (pre.length + x.length + 2) (acc ++ [x ++ [13, 10]]) := by
+  have hpl : 0 < post.length := List.length_pos_iff.mpr hpost
+  have hlen : buf.length = pre.length + x.length + 2 + post.length := by simp [hbuf]; omega
+  have hbuf' : buf = pre ++ ((x ++ [13]) ++ (10 :: post)) := by simp [hbuf]
+  have hbuf2 : buf = pre ++ ((x ++ [13, 10]) ++ post) := by simp [hbuf]
+  rw [scanAt_skip buf x.length pre.length (pre.length + x.length) pre.length acc rfl (by omega) (by
+    intro k h1 h2
+    obtain ⟨e, rfl⟩ : ∃ e, k = pre.length + e := ⟨k - pre.length, by omega⟩
+    rw [hbuf', idx_mid _ _ _ _ (by simp; omega), Nat.add_assoc, idx_mid _ _ _ _ (by simp; omega)]
+    exact hasCRLF_index _ hx e)]
+  have h13 : buf[pre.length + x.length]? = some 13 := by
+    rw [hbuf2, idx_mid _ _ _ _ (by simp)]; simp
+  have h10 : buf[pre.length + x.length + 1]? = some 10 := by
+    rw [hbuf2, Nat.add_assoc, idx_mid _ _ _ _ (by simp)]; simp
+  rw [scanAt_step buf _ _ _ (by omega), h13, h10]
+  simp only [beq_self_eq_true, Bool.and_self, ↓reduceIte]
+  have hslice : (buf.drop pre.length).take (pre.length + x.length + 2 - pre.length) = x ++ [13, 10] := by
+    rw [hbuf2, List.drop_left]
+    have : pre.length + x.length + 2 - pre.length = (x ++ [13, 10]).length := by simp; omega
+    rw [this, List.take_left]
+  rw [hslice]
+  by_cases h1 : pre.length + x.length + 1 < buf.length - 2
+  · rw [scanAt_step buf _ _ _ h1, h10]
+    simp
+  · rw [scanAt_stop buf _ _ _ (by omega), scanAt_stop buf _ _ _ (by omega)]
+
+theorem scanAt_tail (buf pre post : Bytes) (acc : List Bytes) (hbuf : buf = pre ++ post) (hx : hasCRLF post = false) :
+    scanAt buf pre.length pre.length acc = acc := by
+  by_cases h : buf.length - 2 ≤ pre.length
+  · exact scanAt_stop _ _ _ _ h
+  · rw [scanAt_skip buf (buf.length - 2 - pre.length) pre.length (buf.length - 2) pre.length acc (by omega) (Nat.le_refl _) (by
+      intro k h1 h2
+      obtain ⟨e, rfl⟩ : ∃ e, k = pre.length + e := ⟨k - pre.length, by omega⟩
+      have hlen : buf.length = pre.length + post.length := by simp [hbuf]
+      have := idx_mid pre post [] e (by omega)
+      have h2' := idx_mid pre post [] (e + 1) (by omega)
+      simp only [List.append_nil] at this h2'
+      rw [hbuf, this, Nat.add_assoc, h2']
+      exact hasCRLF_index _ hx e)]
+    exact scanAt_stop _ _ _ _ (Nat.le_refl _)
+
+/-- a line of the reply: some bytes without CRLF (and not ending in CR before the closing CRLF would make one), then CRLF -/
+def IsLine (l : Bytes) : Prop := ∃ x, l = x ++ [13, 10] ∧ hasCRLF (x ++ [13]) = false
+
+theorem scanAt_lines (buf post : Bytes) (hpost : post ≠ []) (hx : hasCRLF post = false) (ls : List Bytes) :
+    ∀ (pre : Bytes) (acc : List Bytes), buf = pre ++ (ls.flatten ++ post) → (∀ l ∈ ls, IsLine l) →
+      scanAt buf pre.length pre.length acc = acc ++ ls := by
+  induction ls with
+  | nil =>
+    intro pre acc hbuf _
+    simp only [List.flatten_nil, List.nil_append] at hbuf
+    rw [scanAt_tail buf pre post acc hbuf hx]; simp
+  | cons l ls ih =>
+    intro pre acc hbuf hl
+    obtain ⟨x, rfl, hxl⟩ := hl l (by simp)
+    rw [scanAt_line buf pre x (ls.flatten ++ post) acc (by simp [hbuf]) (by simp [hpost]) hxl]
+    have := ih (pre ++ (x ++ [13, 10])) (acc ++ [x ++ [13, 10]]) (by simp [hbuf]) (fun l h => hl l (by simp [h]))
+    simp only [List.length_append, List.length_cons, List.length_nil, Nat.zero_add, Nat.reduceAdd] at this
+    rw [← Nat.add_assoc] at this
+    rw [this]; simp
+
+theorem prompt_noCRLF : hasCRLF prompt = false := by decide
+
+/-- `_parse_response` on a well-formed reply: exactly the lines -/
+theorem parseResponse_lines (ls : List Bytes) (hl : ∀ l ∈ ls, IsLine l) : parseResponse (ls.flatten ++ prompt) = ls := by
+  rw [parseResponse_eq]
+  have := scanAt_lines (ls.flatten ++ prompt) prompt (by decide) prompt_noCRLF ls [] [] (by simp) hl
+  simpa using this
+
+
+/-! ### `_server_recv_response` as a whole -/
+
+theorem recvLoop_error_codes (fuel : Nat) (buf : Bytes) (buflen : Nat) (cs : List Chunk) (e : Nat) (cs' : List Chunk)
+    (h : recvLoop fuel buf buflen cs = (.error e, cs')) : e = 7 ∨ e = 1 := by
+  induction fuel generalizing buf buflen cs with
+  | zero => simp [recvLoop] at h
+  | succ fuel ih =>
+    rw [recvLoop_succ] at h
+    generalize readK cs (growLen buf buflen - buf.length) = r at h
+    obtain ⟨x, cs1⟩ := r
+    rcases x with _ | _ | bs
+    · simp at h; omega
+    · simp at h; omega
+    · simp only at h
+      split at h
+      · simp at h
+      · exact ih _ _ _ h
+
+/-- the buffer `_server_recv_response` hands to `_parse_response` (when the read loop succeeds) -/
+def replyBuf (cs : List Chunk) : Option Bytes :=
+  match recvLoop (recvFuel cs) [] 0 cs with
+  | (.ok buf, _) => some buf
+  | _ => none
+
+/-- the lines of the reply, in stream order -/
+def replyLines (cs : List Chunk) : List Bytes :=
+  match replyBuf cs with
+  | some buf => parseResponse buf
+  | none => []
+
+theorem recvResponse_ok (cs : List Chunk) (buf : Bytes) (cs' : List Chunk) (h : recvLoop (recvFuel cs) [] 0 cs = (.ok buf, cs')) :
+    recvResponse cs = (retcode (parseResponse buf), (if retcode (parseResponse buf) == 0 then (parseResponse buf).reverse else []), cs') ∧
+    replyLines cs = parseResponse buf := by
+  unfold recvResponse replyLines replyBuf
+  rw [h]
+  exact ⟨rfl, rfl⟩
+
+theorem recvResponse_error (cs : List Chunk) (e : Nat) (cs' : List Chunk) (h : recvLoop (recvFuel cs) [] 0 cs = (.error e, cs')) :
+    recvResponse cs = (e, [], cs') := by
+  unfold recvResponse
+  rw [h]
+
+/-- return code 0 ⇒ the read loop succeeded, the lines handed out are the reply's lines (last first), and their verdict is 0 -/
+theorem recvResponse_zero (cs : List Chunk) (h : (recvResponse cs).1 = 0) :
+    (recvResponse cs).2.1 = (replyLines cs).reverse ∧ retcode (replyLines cs) = 0 := by
+  generalize hr : recvLoop (recvFuel cs) [] 0 cs = r
+  obtain ⟨x, cs'⟩ := r
+  cases x with
+  | error e =>
+    rw [recvResponse_error cs e cs' hr] at h
+    have := recvLoop_error_codes _ _ _ _ _ _ hr
+    simp only at h; omega
+  | ok buf =>
+    obtain ⟨h1, h2⟩ := recvResponse_ok cs buf cs' hr
+    rw [h1] at h ⊢
+    simp only at h
+    rw [h2]
+    simp [h]
+
+theorem recvResponse_success_only_if (cs : List Chunk) (h : (recvResponse cs).1 = 0) :
+    ∃ l ∈ replyLines cs, ∃ c ∈ successCodes, scanInt (cstr l) = some c :=
+  retcode_zero _ (recvResponse_zero cs h).2
+
+/-- when the return code is not 0 no line is handed out -/
+theorem recvResponse_nonzero (cs : List Chunk) (h : (recvResponse cs).1 ≠ 0) : (recvResponse cs).2.1 = [] := by
+  generalize hr : recvLoop (recvFuel cs) [] 0 cs = r
+  obtain ⟨x, cs'⟩ := r
+  cases x with
+  | error e => rw [recvResponse_error cs e cs' hr]
+  | ok buf =>
+    obtain ⟨h1, h2⟩ := recvResponse_ok cs buf cs' hr
+    rw [h1] at h ⊢
+    simp only at h
+    simp [h]
+
+/-! ### `pm_node_status` -/
+
+def onLine (node : Bytes) : Bytes := str "303 " ++ cstr node ++ str ": on" ++ crlf
+def offLine (node : Bytes) : Bytes := str "303 " ++ cstr node ++ str ": off" ++ crlf
+
+theorem nodeStatus_eq (node : Bytes) (cs : List Chunk) :
+    nodeStatus node cs =
+      if (recvResponse cs).1 != 0 then ((recvResponse cs).1, none, (recvResponse cs).2.2) else
+      (0, some (if (recvResponse cs).2.1.any (fun l => cstr l == offLine node) then 1
+                else if (recvResponse cs).2.1.any (fun l => cstr l == onLine node) then 2 else 0), (recvResponse cs).2.2) := by
+  unfold nodeStatus onLine offLine
+  rfl
+
+theorem nodeStatus_spec (node : Bytes) (cs : List Chunk) (h : (recvResponse cs).1 = 0) :
+    nodeStatus node cs =
+      (0, some (if ∃ l ∈ replyLines cs, cstr l = offLine node then 1
+                else if ∃ l ∈ replyLines cs, cstr l = onLine node then 2 else 0), (recvResponse cs).2.2) := by
+  rw [nodeStatus_eq, (recvResponse_zero cs h).1]
+  simp only [h, bne_self_eq_false, Bool.false_eq_true, ↓reduceIte, List.any_reverse, List.any_eq_true, beq_iff_eq]
+
+theorem nodeStatus_fail (node : Bytes) (cs : List Chunk) (h : (recvResponse cs).1 ≠ 0) :
+    nodeStatus node cs = ((recvResponse cs).1, none, (recvResponse cs).2.2) := by
+  rw [nodeStatus_eq]
+  simp [h]
+
+/-! ### `pm_node_iterator_create` -/
+
+theorem nodeList_eq (cs : List Chunk) :
+    nodeList cs =
+      if (recvResponse cs).1 != 0 then ((recvResponse cs).1, [], (recvResponse cs).2.2) else
+      (0, ((recvResponse cs).2.1.filterMap fun l => scan307 (cstr l)).reverse, (recvResponse cs).2.2) := by
+  unfold nodeList
+  rfl
+
+theorem nodeList_spec (cs : List Chunk) (h : (recvResponse cs).1 = 0) :
+    nodeList cs = (0, (replyLines cs).filterMap (fun l => scan307 (cstr l)), (recvResponse cs).2.2) := by
+  rw [nodeList_eq, (recvResponse_zero cs h).1]
+  simp [h, List.filterMap_reverse]
+
+theorem nodeList_fail (cs : List Chunk) (h : (recvResponse cs).1 ≠ 0) :
+    nodeList cs = ((recvResponse cs).1, [], (recvResponse cs).2.2) := by
+  rw [nodeList_eq]
+  simp [h]
+
+/-- a conforming node line -/
+def nodeLine (w : Bytes) : Bytes := str "307 " ++ w ++ crlf
+
+theorem str_307 : str "307 " = [51, 48, 55, 32] := by decide +kernel
+
+theorem scan307_nodeLine (w : Bytes) (hne : w ≠ []) (hw : ∀ b ∈ w, isSpace b = false ∧ b ≠ 0) :
+    scan307 (cstr (nodeLine w)) = some w := by
+  have hc : cstr (nodeLine w) = nodeLine w := by
+    apply cstr_of_nonul
+    intro x hx
+    simp only [nodeLine, str_307, crlf, List.mem_append, List.mem_cons, List.not_mem_nil, or_false] at hx
+    rcases hx with (h | h) | h
+    · rcases h with rfl | rfl | rfl | rfl <;> decide
+    · exact (hw x h).2
+    · rcases h with rfl | rfl <;> decide
+  rw [hc]
+  obtain ⟨a, w', rfl⟩ := List.exists_cons_of_ne_nil hne
+  have ha := (hw a (by simp)).1
+  unfold scan307 nodeLine
+  rw [str_307]
+  simp only [List.cons_append, List.nil_append]
+  have h32 : isSpace 32 = true := by decide
+  have h13 : isSpace 13 = true := by decide
+  simp only [List.dropWhile_cons, h32, ↓reduceIte, ha, Bool.false_eq_true]
+  have : List.takeWhile (fun b => !isSpace b) (a :: (w' ++ crlf)) = a :: w' := by
+    rw [← List.cons_append, List.takeWhile_append_of_pos (by
+      intro x hx; simp [(hw x hx).1])]
+    simp [crlf, h13]
+  rw [this]
+  simp
+
+
+/-! ### segmentation independence of the read loop -/
+
+/-- a script whose first data chunks carry `s`: if `s` ends with the prompt and no shorter non-empty prefix does, the loop
+    returns `s` and leaves what follows, however `s` is cut into chunks -/
+theorem recv_split_general (cs : List Chunk) (s : Bytes) (t : List Chunk) (hseg : Seg cs s t)
+    (hend : endsWith s prompt = true)
+    (hq : ∀ q r, s = q ++ r → q ≠ [] → r ≠ [] → endsWith q prompt = false) :
+    recvLoop (recvFuel cs) [] 0 cs = (.ok s, t) := by
+  have hs : s ≠ [] := by
+    intro h; subst h; simp [endsWith, prompt] at hend
+  rcases recv_seg s.length [] 0 cs s t (Nat.le_refl _) hseg hs (by simp) (by simpa using hq) with h | h
+  · rw [recvResponse_loop]; simpa using h.2
+  · simp [hend] at h
+
+theorem readK_bytesOf (cs : List Chunk) (space : Nat) (bs : Bytes) (cs' : List Chunk)
+    (h : readK cs space = (some (some bs), cs')) : bytesOf cs = bs ++ bytesOf cs' := by
+  unfold readK at h
+  split at h
+  · simp at h
+  · simp at h
+  · simp at h
+  · rename_i b r
+    by_cases hb : b.isEmpty
+    · simp [hb] at h
+    · by_cases hl : b.length ≤ space
+      · simp [hb, hl] at h
+        obtain ⟨rfl, rfl⟩ := h
+        rfl
+      · simp [hb, hl] at h
+        obtain ⟨rfl, rfl⟩ := h
+        simp [bytesOf, ← List.append_assoc]
+
+/-- whatever the script: when the loop succeeds, what it returns ends with the prompt and is exactly the bytes consumed -/
+theorem recvLoop_ok_sound (fuel : Nat) (buf : Bytes) (buflen : Nat) (cs : List Chunk) (b : Bytes) (cs' : List Chunk)
+    (hb : buf.length ≤ buflen) (hf : chunkBytes cs < fuel) (h : recvLoop fuel buf buflen cs = (.ok b, cs')) :
+    endsWith b prompt = true ∧ buf ++ bytesOf cs = b ++ bytesOf cs' := by
+  induction fuel generalizing buf buflen cs with
+  | zero => omega
+  | succ fuel ih =>
+    rw [recvLoop_succ] at h
+    generalize hr : readK cs (growLen buf buflen - buf.length) = r at h
+    obtain ⟨x, cs1⟩ := r
+    rcases x with _ | _ | bs
+    · simp at h
+    · simp at h
+    · have hm := readK_measure cs _ bs cs1 (growLen_space buf buflen hb).1 hr
+      have hbd := recv_step_bounds buf buflen cs hb bs cs1 hr
+      have hby := readK_bytesOf cs _ bs cs1 hr
+      simp only at h
+      split at h
+      · rename_i he
+        simp only [Prod.mk.injEq, Except.ok.injEq] at h
+        obtain ⟨rfl, rfl⟩ := h
+        exact ⟨he, by rw [hby, List.append_assoc]⟩
+      · have := ih (buf ++ bs) (growLen buf buflen) cs1 hbd.2 (by omega) h
+        exact ⟨this.1, by rw [hby, ← List.append_assoc]; exact this.2⟩
+
+
+/-! ### the CLI on a conforming stream, however segmented -/
+
+theorem hasCRLF_cons (a : UInt8) (r : Bytes) (h : a ≠ 13) : hasCRLF (a :: r) = hasCRLF r := by
+  cases r with
+  | nil => rfl
+  | cons b r => simp [hasCRLF, h]
+
+theorem hasCRLF_append_crlf (p r : Bytes) : hasCRLF (p ++ 13 :: 10 :: r) = true := by
+  induction p with
+  | nil => simp [hasCRLF]
+  | cons a p ih =>
+    cases hp : p ++ 13 :: 10 :: r with
+    | nil => simp at hp
+    | cons b r' =>
+      rw [hp] at ih
+      simp [hasCRLF, hp, ih]
+
+/-- no proper prefix of a line ends with CRLF -/
+theorem line_prefix_noCRLF (x q r : Bytes) (hx : hasCRLF (x ++ [13]) = false) (h : x ++ [13, 10] = q ++ r) (hr : r ≠ []) :
+    endsWith q crlf = false := by
+  rw [← Bool.not_eq_true, endsWith_iff]
+  rintro ⟨p, rfl⟩
+  have h1 : (x ++ [13, 10]).dropLast = x ++ [13] := by
+    have : x ++ [13, 10] = (x ++ [13]) ++ [10] := by simp
+    rw [this, List.dropLast_concat]
+  have h2 : (p ++ crlf ++ r).dropLast = p ++ crlf ++ r.dropLast := List.dropLast_append_of_ne_nil hr
+  rw [h, h2] at h1
+  have := hasCRLF_append_crlf p r.dropLast
+  rw [← h1] at hx
+  simp [crlf] at hx
+  rw [hx] at this
+  exact absurd this (by simp)
+
+theorem readStr_seg (y : Bytes) : ∀ (acc : Bytes) (cs : List Chunk) (rest : Bytes) (t : List Chunk) (fuel : Nat),
+    Seg cs (y ++ rest) t → y ≠ [] → y.length ≤ fuel → endsWith (acc ++ y) crlf = true →
+    (∀ q r, y = q ++ r → q ≠ [] → r ≠ [] → endsWith (acc ++ q) crlf = false) →
+    ∃ cs', readStr fuel acc cs = (.ok ((acc ++ y).take ((acc ++ y).length - 2)), cs') ∧ Seg cs' rest t := by
+  induction y with
+  | nil => intro _ _ _ _ _ _ h; exact absurd rfl h
+  | cons a y ih =>
+    intro acc cs rest t fuel hseg _ hf hend hq
+    obtain ⟨fuel, rfl⟩ : ∃ k, fuel = k + 1 := ⟨fuel - 1, by simp at hf; omega⟩
+    obtain ⟨bs, s', cs1, hr, hbs, hbl, hs, hseg'⟩ := readK_seg hseg (by simp) 1 (by omega)
+    obtain ⟨b, rfl⟩ : ∃ b, bs = [b] := by
+      match bs, hbs, hbl with
+      | [b], _, _ => exact ⟨b, rfl⟩
+      | _ :: _ :: _, _, h => simp at h
+    simp only [List.cons_append, List.nil_append, List.cons.injEq] at hs
+    obtain ⟨rfl, rfl⟩ := hs
+    rw [readStr_succ, hr]
+    simp only
+    by_cases hy : y = []
+    · subst hy
+      simp only [List.nil_append] at hseg'
+      rw [if_pos hend]
+      exact ⟨cs1, rfl, hseg'⟩
+    · have hne : endsWith (acc ++ [a]) crlf = false := hq [a] y rfl (by simp) hy
+      rw [if_neg (by simp [hne])]
+      obtain ⟨cs', h1, h2⟩ := ih (acc ++ [a]) cs1 rest t fuel hseg' hy (by simp at hf; omega) (by simpa using hend) (by
+        intro q r hqr hq0 hr0
+        have := hq (a :: q) r (by simp [hqr]) (by simp) hr0
+        simpa using this)
+      refine ⟨cs', ?_, h2⟩
+      rw [h1]; simp
+
+/-- `xreadstr` on a stream that begins with a line -/
+theorem readStr_line (x rest : Bytes) (cs t : List Chunk) (fuel : Nat) (hseg : Seg cs (x ++ crlf ++ rest) t)
+    (hx : hasCRLF (x ++ [13]) = false) (hf : x.length + 2 ≤ fuel) :
+    ∃ cs', readStr fuel [] cs = (.ok x, cs') ∧ Seg cs' rest t := by
+  obtain ⟨cs', h1, h2⟩ := readStr_seg (x ++ crlf) [] cs rest t fuel hseg (by simp [crlf]) (by simp [crlf]; omega)
+    (by rw [endsWith_iff]; exact ⟨x, by simp⟩) (by
+      intro q r hqr _ hr
+      simp only [List.nil_append]
+      exact line_prefix_noCRLF x q r hx (by simpa [crlf] using hqr) hr)
+  refine ⟨cs', ?_, h2⟩
+  rw [h1]
+  simp [crlf]
+
+theorem expectLoop_seg (fuel : Nat) : ∀ (need : Nat) (y acc : Bytes) (cs : List Chunk) (rest : Bytes) (t : List Chunk),
+    Seg cs (y ++ rest) t → y.length = need → 0 < need → need ≤ fuel →
+    ∃ cs', expectLoop fuel acc need cs = (.ok (acc ++ y), cs') ∧ Seg cs' rest t := by
+  induction fuel with
+  | zero => intro need _ _ _ _ _ _ _ h1 h2; omega
+  | succ fuel ih =>
+    intro need y acc cs rest t hseg hy hpos hf
+    have hyne : y ≠ [] := by intro h; subst h; simp at hy; omega
+    obtain ⟨bs, s', cs1, hr, hbs, hbl, hs, hseg'⟩ := readK_seg hseg (by simp [hyne]) need hpos
+    have hbpos : 0 < bs.length := List.length_pos_iff.mpr hbs
+    have h1 : bs = y.take bs.length := by
+      have : (y ++ rest).take bs.length = bs := by rw [hs]; simp
+      rw [List.take_append_of_le_length (by omega)] at this
+      exact this.symm
+    have h2 : s' = y.drop bs.length ++ rest := by
+      have : (y ++ rest).drop bs.length = s' := by rw [hs]; simp
+      rw [List.drop_append_of_le_length (by omega)] at this
+      exact this.symm
+    rw [expectLoop_succ, hr]
+    simp only
+    by_cases hz : need - bs.length = 0
+    · have hd : y.drop bs.length = [] := by
+        apply List.eq_nil_of_length_eq_zero; simp; omega
+      have hyb : y = bs := by
+        have := List.take_append_drop bs.length y
+        rw [hd, ← h1] at this; simpa using this.symm
+      rw [hd] at h2
+      simp only [List.nil_append] at h2
+      subst h2
+      simp only [hz, beq_self_eq_true, ↓reduceIte]
+      exact ⟨cs1, by rw [hyb], hseg'⟩
+    · rw [if_neg (by simpa using hz)]
+      rw [h2] at hseg'
+      obtain ⟨cs', h3, h4⟩ := ih (need - bs.length) (y.drop bs.length) (acc ++ bs) cs1 rest t hseg' (by simp; omega) (by omega) (by omega)
+      refine ⟨cs', ?_, h4⟩
+      rw [h3, List.append_assoc]
+      congr 3
+      conv => rhs; rw [← List.take_append_drop bs.length y, ← h1]
+
+theorem expect_seg (p rest : Bytes) (cs t : List Chunk) (hseg : Seg cs (p ++ rest) t) (hp : p ≠ []) (hc : cstr p = p) :
+    ∃ cs', expect p cs = (.ok (), cs') ∧ Seg cs' rest t := by
+  obtain ⟨cs', h1, h2⟩ := expectLoop_seg (p.length + 1) p.length p [] cs rest t hseg rfl (List.length_pos_iff.mpr hp) (by omega)
+  refine ⟨cs', ?_, h2⟩
+  unfold expect
+  rw [h1]
+  simp [hc]
+
+theorem expectC_seg (p rest : Bytes) (c : Cli) (t : List Chunk) (hseg : Seg c.cs (p ++ rest) t) (hp : p ≠ []) (hc : cstr p = p) :
+    ∃ cs', expectC p c = (.ok (), { c with cs := cs' }) ∧ Seg cs' rest t := by
+  obtain ⟨cs', h1, h2⟩ := expect_seg p rest c.cs t hseg hp hc
+  refine ⟨cs', ?_, h2⟩
+  unfold expectC
+  rw [h1]
+
+/-- a reply line `NNN␠text\r\n` -/
+structure RLine where
+  code : Nat
+  text : Bytes
+
+def RLine.bytes (l : RLine) : Bytes := digits3 l.code ++ 32 :: l.text ++ crlf
+
+/-- three digits, a non-empty text without NUL and without CRLF (nor a final CR) -/
+def RLine.ok (l : RLine) : Prop := l.code < 1000 ∧ l.text ≠ [] ∧ (∀ b ∈ l.text, b ≠ 0) ∧ hasCRLF (l.text ++ [13]) = false
+
+/-- what `_process_line` prints for the line: on stdout, on stderr -/
+def RLine.out (l : RLine) : Bytes := if l.code = 103 ∨ l.code = 104 ∨ l.code = 105 ∨ l.code = 309 then [] else l.text ++ [10]
+def RLine.err (l : RLine) : Bytes := if l.code = 309 then l.text ++ [10] else []
+
+theorem digits3_ne13 (n : Nat) (h : n < 1000) : ∀ d ∈ digits3 n, d ≠ 13 := by
+  intro d hd h13
+  have := digits3_digits n h d hd
+  subst h13
+  simp [isDigit] at this
+
+theorem RLine.noCRLF (l : RLine) (h : l.ok) : hasCRLF ((digits3 l.code ++ 32 :: l.text) ++ [13]) = false := by
+  have hd := digits3_ne13 l.code h.1
+  simp only [digits3, List.mem_cons, List.not_mem_nil, or_false, forall_eq_or_imp, forall_eq] at hd
+  simp only [digits3, List.cons_append, List.nil_append]
+  rw [hasCRLF_cons _ _ hd.1, hasCRLF_cons _ _ hd.2.1, hasCRLF_cons _ _ hd.2.2, hasCRLF_cons _ _ (by decide)]
+  exact h.2.2.2
+
+theorem RLine.bytes_length (l : RLine) : l.bytes.length = l.text.length + 6 := by
+  simp [RLine.bytes, digits3, crlf]
+
+theorem processLine_seg (l : RLine) (h : l.ok) (c : Cli) (rest : Bytes) (t : List Chunk) (hseg : Seg c.cs (l.bytes ++ rest) t) :
+    ∃ cs', processLine c = (.ok (l.code : Int), { cs := cs', out := c.out ++ l.out, errs := c.errs ++ l.err }) ∧ Seg cs' rest t := by
+  have hlen := Seg_length hseg
+  have hseg' : Seg c.cs ((digits3 l.code ++ 32 :: l.text) ++ crlf ++ rest) t := by
+    simpa [RLine.bytes] using hseg
+  obtain ⟨cs', h1, h2⟩ := readStr_line _ rest c.cs t (chunkBytes c.cs + 2) hseg' (l.noCRLF h) (by
+    rw [List.length_append, l.bytes_length] at hlen
+    simp [digits3]; omega)
+  refine ⟨cs', ?_, h2⟩
+  have hcs : cstr (digits3 l.code ++ 32 :: l.text) = digits3 l.code ++ 32 :: l.text := by
+    rw [cstr_digits3 _ h.1, cstr_of_nonul _ h.2.2.1]
+  have hnum := strtolCli_line l.code h.1 l.text
+  rw [hcs] at hnum
+  have htl : 0 < l.text.length := List.length_pos_iff.mpr h.2.1
+  unfold processLine
+  rw [h1]
+  simp only [hcs, hnum]
+  have hl4 : (digits3 l.code ++ 32 :: l.text).length > 4 := by simp [digits3]; omega
+  have hd4 : (digits3 l.code ++ 32 :: l.text).drop 4 = l.text := by simp [digits3]
+  rw [if_pos hl4, hd4]
+  unfold RLine.out RLine.err
+  by_cases h103 : l.code = 103
+  · simp [h103]
+  by_cases h104 : l.code = 104
+  · simp [h104]
+  by_cases h105 : l.code = 105
+  · simp [h105]
+  by_cases h309 : l.code = 309
+  · simp [h309]
+  have e1 : ((l.code : Int) == 103) = false := by simp; omega
+  have e2 : ((l.code : Int) == 104) = false := by simp; omega
+  have e3 : ((l.code : Int) == 105) = false := by simp; omega
+  have e4 : ((l.code : Int) == 309) = false := by simp; omega
+  simp [e1, e2, e3, e4, h103, h104, h105, h309]
+
+
+def outOf (ls : List RLine) : Bytes := (ls.map RLine.out).flatten
+def errOf (ls : List RLine) : Bytes := (ls.map RLine.err).flatten
+def bytesOfLines (ls : List RLine) : Bytes := (ls.map RLine.bytes).flatten
+
+theorem bytesOfLines_length (ls : List RLine) : ls.length ≤ (bytesOfLines ls).length := by
+  induction ls with
+  | nil => simp [bytesOfLines]
+  | cons l ls ih =>
+    simp only [bytesOfLines, List.map_cons, List.flatten_cons, List.length_append, List.length_cons, l.bytes_length] at ih ⊢
+    omega
+
+/-- `_process_response` on one conforming response: intermediate lines (code outside 100…299), then the terminal line -/
+theorem processResponse_seg (ls : List RLine) : ∀ (tl : RLine) (c : Cli) (rest : Bytes) (t : List Chunk) (fuel : Nat),
+    (∀ l ∈ ls, l.ok ∧ ¬ (100 ≤ l.code ∧ l.code < 300)) → tl.ok → 100 ≤ tl.code → tl.code < 300 →
+    Seg c.cs (bytesOfLines ls ++ tl.bytes ++ rest) t → ls.length < fuel →
+    ∃ cs', processResponse fuel c =
+        (.ok (if 200 ≤ tl.code then (tl.code : Int) else 0),
+         { cs := cs', out := c.out ++ outOf (ls ++ [tl]), errs := c.errs ++ errOf (ls ++ [tl]) }) ∧ Seg cs' rest t := by
+  induction ls with
+  | nil =>
+    intro tl c rest t fuel _ htl h1 h3 hseg hf
+    obtain ⟨fuel, rfl⟩ : ∃ k, fuel = k + 1 := ⟨fuel - 1, by simp at hf; omega⟩
+    obtain ⟨cs', hp, hs⟩ := processLine_seg tl htl c rest t (by simpa [bytesOfLines] using hseg)
+    refine ⟨cs', ?_, hs⟩
+    rw [processResponse_succ, hp]
+    have e1 : (100 ≤ (tl.code : Int)) := by omega
+    have e2 : ((tl.code : Int) < 300) := by omega
+    simp only [e1, e2, decide_true, Bool.and_self, ↓reduceIte]
+    have : (200 ≤ (tl.code : Int)) ↔ 200 ≤ tl.code := by omega
+    simp [outOf, errOf, this]
+  | cons l ls ih =>
+    intro tl c rest t fuel hls htl h1 h3 hseg hf
+    obtain ⟨fuel, rfl⟩ : ∃ k, fuel = k + 1 := ⟨fuel - 1, by simp at hf; omega⟩
+    obtain ⟨hl, hcode⟩ := hls l (by simp)
+    obtain ⟨cs1, hp, hs⟩ := processLine_seg l hl c (bytesOfLines ls ++ tl.bytes ++ rest) t (by
+      simpa [bytesOfLines, List.append_assoc] using hseg)
+    rw [processResponse_succ, hp]
+    have e : (decide (100 ≤ (l.code : Int)) && decide ((l.code : Int) < 300)) = false := by
+      rw [← Bool.not_eq_true]; simp; omega
+    simp only [e, Bool.false_eq_true, ↓reduceIte]
+    obtain ⟨cs', h4, h5⟩ := ih tl { cs := cs1, out := c.out ++ l.out, errs := c.errs ++ l.err } rest t fuel
+      (fun x hx => hls x (by simp [hx])) htl h1 h3 hs (by simp at hf; omega)
+    refine ⟨cs', ?_, h5⟩
+    rw [h4]
+    simp [outOf, errOf, List.append_assoc]
+
+theorem cstr_prompt : cstr prompt = prompt := by decide
+theorem cstr_goodbye : cstr goodbye = goodbye := by decide +kernel
+
+/-- one exchange as the server sends it: the response and the prompt -/
+structure Exch where
+  lines : List RLine
+  term : RLine
+
+def Exch.ok (e : Exch) : Prop := (∀ l ∈ e.lines, l.ok ∧ ¬ (100 ≤ l.code ∧ l.code < 300)) ∧ e.term.ok ∧ 100 ≤ e.term.code ∧ e.term.code < 300
+def Exch.all (e : Exch) : List RLine := e.lines ++ [e.term]
+def Exch.bytes (e : Exch) : Bytes := bytesOfLines e.all ++ prompt
+/-- the value `_process_response` returns: the 2xx code, or 0 -/
+def Exch.res (e : Exch) : Int := if 200 ≤ e.term.code then (e.term.code : Int) else 0
+
+theorem exchange_seg (e : Exch) (he : e.ok) (c : Cli) (rest : Bytes) (t : List Chunk) (fuel : Nat)
+    (hseg : Seg c.cs (e.bytes ++ rest) t) (hf : e.lines.length < fuel) :
+    ∃ cs', exchange fuel c = (.ok e.res, { cs := cs', out := c.out ++ outOf e.all, errs := c.errs ++ errOf e.all }) ∧ Seg cs' rest t := by
+  obtain ⟨cs1, h1, h2⟩ := processResponse_seg e.lines e.term c (prompt ++ rest) t fuel he.1 he.2.1 he.2.2.1 he.2.2.2 (by
+    simpa [Exch.bytes, Exch.all, bytesOfLines, List.append_assoc] using hseg) hf
+  obtain ⟨cs', h3, h4⟩ := expect_seg prompt rest cs1 t h2 (by decide) cstr_prompt
+  refine ⟨cs', ?_, h4⟩
+  unfold exchange
+  rw [h1]
+  simp only
+  rw [h3]
+  rfl
+
+def bytesOfExchs (es : List Exch) : Bytes := (es.map Exch.bytes).flatten
+
+/-- the exchanges `main` performs: it stops after the first whose result is not 0 -/
+theorem run_seg (init : List Exch) : ∀ (last : Exch) (k : Nat) (c : Cli) (rest : Bytes) (t : List Chunk) (fuel : Nat),
+    (∀ e ∈ init, e.ok ∧ e.res = 0 ∧ e.lines.length < fuel) → last.ok → last.lines.length < fuel →
+    (init.length + 1 = k ∨ (init.length + 1 ≤ k ∧ last.res ≠ 0)) →
+    Seg c.cs (bytesOfExchs (init ++ [last]) ++ rest) t →
+    ∃ cs', cliRun.run (exchange fuel) k c =
+        (.ok last.res, { cs := cs', out := c.out ++ ((init ++ [last]).map fun e => outOf e.all).flatten,
+                         errs := c.errs ++ ((init ++ [last]).map fun e => errOf e.all).flatten }) ∧ Seg cs' rest t := by
+  induction init with
+  | nil =>
+    intro last k c rest t fuel _ hl hlf hk hseg
+    obtain ⟨k, rfl⟩ : ∃ j, k = j + 1 := ⟨k - 1, by simp at hk; omega⟩
+    obtain ⟨cs', h1, h2⟩ := exchange_seg last hl c rest t fuel (by simpa [bytesOfExchs] using hseg) hlf
+    refine ⟨cs', ?_, h2⟩
+    rw [run_succ, h1]
+    simp only
+    by_cases hr : last.res = 0
+    · have hk0 : k = 0 := by simp at hk; rcases hk with h | h; exact h; exact absurd hr h
+      subst hk0
+      rw [run_zero]
+      simp [hr]
+    · simp [hr]
+  | cons e init ih =>
+    intro last k c rest t fuel hin hl hlf hk hseg
+    obtain ⟨k, rfl⟩ : ∃ j, k = j + 1 := ⟨k - 1, by simp at hk; omega⟩
+    obtain ⟨he, hres, hef⟩ := hin e (by simp)
+    obtain ⟨cs1, h1, h2⟩ := exchange_seg e he c (bytesOfExchs (init ++ [last]) ++ rest) t fuel (by
+      simpa [bytesOfExchs, List.append_assoc] using hseg) hef
+    rw [run_succ, h1]
+    simp only [hres, bne_self_eq_false, Bool.false_eq_true, ↓reduceIte]
+    obtain ⟨cs', h3, h4⟩ := ih last k { cs := cs1, out := c.out ++ outOf e.all, errs := c.errs ++ errOf e.all } rest t fuel
+      (fun x hx => hin x (by simp [hx])) hl hlf (by simp at hk ⊢; omega) h2
+    refine ⟨cs', ?_, h4⟩
+    rw [h3]
+    simp [List.append_assoc]
+
 end Pm.LibPmModel
